@@ -254,21 +254,24 @@ Definition explain_ll_with (pinned : quirks) (c : ll_case) :=
 
 (** * group hs: HTTPServer runtime built from YAML, real net/http accept loop, keep-alive clients *)
 
-Inductive hop := HDial | HClose (c : N) | HReload (n : Z).
+Inductive hop := HDial | HClose (c : N) | HReload (n : Z)
+  | HRestart      (* a reload that needs a restart: closeServer + startServer *)
+  | HFail         (* Serve fails: state failed *)
+  | HRecover.     (* failed-check: startServer again *)
 
 Record hobs := {
   h_decoded : Z; h_served : list N; h_waiting : Z; h_cur : Z; h_real : Z; h_wq : list Z; h_shr : Z;
-  h_skip : bool
+  h_skip : bool; h_running : bool
 }.
 
 Record hs_case := {
-  hc_init : Z; hc_M : Z; hc_ops : list hop; hc_obs : list hobs; hc_desync : bool; hc_bad : bool
+  hc_init : Z; hc_busy : bool; hc_M : Z; hc_ops : list hop; hc_obs : list hobs; hc_desync : bool; hc_bad : bool
 }.
 
 Definition hobs_eqb (a b : hobs) : bool :=
   (h_decoded a =? h_decoded b) && Nlist_eqb (h_served a) (h_served b) && (h_waiting a =? h_waiting b)
   && (h_cur a =? h_cur b) && (h_real a =? h_real b) && Zlist_eqb (h_wq a) (h_wq b) && (h_shr a =? h_shr b)
-  && Bool.eqb (h_skip a) (h_skip b).
+  && Bool.eqb (h_skip a) (h_skip b) && Bool.eqb (h_running a) (h_running b).
 
 (** the single accept loop of net/http: whenever it holds a permit the oldest waiting client
     is accepted and served, and the loop asks for the next permit *)
@@ -280,27 +283,51 @@ Fixpoint hs_settle (q : quirks) (fuel : nat) (s : lstate) (backlog : list N) : l
   | _, _ => (s, backlog)
   end.
 
-Fixpoint hs_model (q : quirks) (s : lstate) (backlog : list N) (next : N) (cap : Z) (ops : list hop) : list hobs :=
+(** a (re)started server: NewLimitListener from the spec in force, the accept loop takes its permit *)
+Definition hs_fresh (q : quirks) (M cap : Z) : lstate := lstep q (linit q M cap) LAcquire.
+
+(** the harness ends every served connection before the listener is replaced *)
+Definition hs_close_all (q : quirks) (s : lstate) : lstate :=
+  fold_left (fun s c => lstep q s (LClose c)) (opened s) s.
+
+Fixpoint hs_model (q : quirks) (M : Z) (run : bool) (s : lstate) (backlog : list N) (next : N) (cap : Z)
+         (ops : list hop) : list hobs :=
   match ops with
   | [] => []
   | o :: t =>
-      (* harness protocol: a reload that is rejected by validation (n < 1) or would shrink the
-         capacity by exactly 1 is not issued *)
-      let skip := match o with HReload n => (n <? 1) || (Z.min n (size (ws s)) =? real s - 1) | _ => false end in
-      let '(s1, backlog1, next1, cap1) :=
+      (* harness protocol: operations that are impossible in the current state are not issued; nor
+         is a reload rejected by validation (n < 1) or one that would shrink a running listener's
+         capacity by exactly 1; the listener is only replaced while nobody waits *)
+      let skip :=
         match o with
-        | HDial => (s, backlog ++ [next], (next + 1)%N, cap)
-        | HClose c => (if mem_N c (opened s) then lstep q s (LClose c) else s, backlog, next, cap)
-        | HReload n => if skip then (s, backlog, next, cap)
-                       else (lrun q s [LSetMax n; LRun 0], backlog, next, n)
+        | HDial | HClose _ => negb run
+        | HReload n => (n <? 1) || (run && (Z.min n (size (ws s)) =? real s - 1))
+        | HRestart | HFail => negb run || negb (is_nil backlog)
+        | HRecover => run
         end in
-      let '(s2, backlog2) := hs_settle q (List.length backlog1) s1 backlog1 in
-      {| h_decoded := cap1; h_served := sortN (opened s2); h_waiting := Z.of_nat (List.length backlog2);
-         h_cur := cur (ws s2); h_real := real s2; h_wq := map snd (wq (ws s2));
-         h_shr := count_who WAdj (wq (ws s2)); h_skip := skip |} :: hs_model q s2 backlog2 next1 cap1 t
+      let '(run1, s1, backlog1, next1, cap1) :=
+        if skip then (run, s, backlog, next, cap) else
+        match o with
+        | HDial => (run, s, backlog ++ [next], (next + 1)%N, cap)
+        | HClose c => (run, if mem_N c (opened s) then lstep q s (LClose c) else s, backlog, next, cap)
+        | HReload n => (run, if run then lrun q s [LSetMax n; LRun 0] else s, backlog, next, n)
+        | HRestart => (true, hs_fresh q M cap, [], next, cap)
+        | HFail => (false, hs_close_all q s, [], next, cap)
+        | HRecover => (true, hs_fresh q M cap, [], next, cap)
+        end in
+      let '(s2, backlog2) := if run1 then hs_settle q (List.length backlog1) s1 backlog1 else (s1, backlog1) in
+      (if run1 then
+         {| h_decoded := cap1; h_served := sortN (opened s2); h_waiting := Z.of_nat (List.length backlog2);
+            h_cur := cur (ws s2); h_real := real s2; h_wq := map snd (wq (ws s2));
+            h_shr := count_who WAdj (wq (ws s2)); h_skip := skip; h_running := true |}
+       else
+         {| h_decoded := cap1; h_served := []; h_waiting := 0; h_cur := 0; h_real := 0; h_wq := [];
+            h_shr := 0; h_skip := skip; h_running := false |})
+      :: hs_model q M run1 s2 backlog2 next1 cap1 t
   end.
 
-(** property checker on observed steps; [cap] is the value written in the YAML in force *)
+(** property checker on observed steps; [cap] is the maxConnections written in the LAST YAML,
+    whatever restarts, failures and recoveries happened since *)
 Fixpoint prop_hs_steps (M cap : Z) (prev : list N) (ops : list hop) (obs : list hobs) : bool :=
   match ops, obs with
   | [], [] => true
@@ -308,31 +335,41 @@ Fixpoint prop_hs_steps (M cap : Z) (prev : list N) (ops : list hop) (obs : list 
       let cap' := match o with HReload n => if h_skip st then cap else n | _ => cap end in
       let nserved := Z.of_nat (List.length (h_served st)) in
       let settled := h_shr st =? 0 in
-      (* the configured value is the one in force *)
+      let replaced := match o with HRestart | HFail | HRecover => negb (h_skip st) | _ => false end in
+      (* the configured value is the one decoded ... *)
       (h_decoded st =? cap') &&
-      (* the cap on served, still open connections *)
-      (if settled then nserved <=? Z.min cap' M else true) &&
-      (* a waiting client is held back only while the cap is reached *)
-      (if settled && (0 <? h_waiting st) then Z.min cap' M <=? nserved else true) &&
-      (* no established connection is dropped (a reload included) *)
-      forallb (fun c => mem_N c (h_served st) || match o with HClose c' => N.eqb c c' | _ => false end) prev &&
+      (if h_running st then
+         (* ... and the one in force in the listener, however it came to be (re)built *)
+         (h_real st =? Z.min cap' M) &&
+         (* the cap on served, still open connections *)
+         (if settled then nserved <=? Z.min cap' M else true) &&
+         (* a waiting client is held back only while the cap is reached *)
+         (if settled && (0 <? h_waiting st) then Z.min cap' M <=? nserved else true) &&
+         (* no established connection is dropped by a hot reload (the harness itself ends all
+            connections before the listener is replaced) *)
+         (replaced || forallb (fun c => mem_N c (h_served st) || match o with HClose c' => N.eqb c c' | _ => false end) prev)
+       else true) &&
       prop_hs_steps M cap' (h_served st) ot bt
   | _, _ => false
   end.
 
+Definition hs_has (f : hop -> bool) (c : hs_case) : bool := existsb f (hc_ops c).
+
 Definition check_hs_with (pinned : quirks) (c : hs_case) : result :=
-  let model q := hs_model q (lstep q (linit q (hc_M c) (hc_init c)) LAcquire) [] 0%N (hc_init c) (hc_ops c) in
+  let model q := hs_model q (hc_M c) (negb (hc_busy c)) (hs_fresh q (hc_M c) (hc_init c)) [] 0%N (hc_init c) (hc_ops c) in
   let ok := negb (hc_desync c) && negb (hc_bad c) in
   let corr := list_eqb hobs_eqb (model pinned) (hc_obs c) && ok in
   let prop := ok && prop_hs_steps (hc_M c) (hc_init c) [] (hc_ops c) (hc_obs c) in
   let waited := existsb (fun st => 0 <? h_waiting st) (hc_obs c) in
-  let reloaded := existsb (fun o => match o with HReload _ => true | _ => false end) (hc_ops c) in
+  let reloaded := hs_has (fun o => match o with HReload _ => true | _ => false end) c in
+  let replaced := hs_has (fun o => match o with HRestart | HFail | HRecover => true | _ => false end) c in
   (corr, prop,
-   if existsb (fun st => negb (is_nil (h_served st))) (hc_obs c) then (1 + bN waited 1 + bN reloaded 2)%N else 0%N,
+   if existsb (fun st => negb (is_nil (h_served st))) (hc_obs c)
+   then (1 + bN waited 1 + bN reloaded 2 + bN replaced 4 + bN (hc_busy c) 8)%N else 0%N,
    if prop then 0%N else attribute pinned corr (fun q => prop_hs_steps (hc_M c) (hc_init c) [] (hc_ops c) (model q))).
 
 Definition explain_hs_with (pinned : quirks) (c : hs_case) :=
-  hs_model pinned (lstep pinned (linit pinned (hc_M c) (hc_init c)) LAcquire) [] 0%N (hc_init c) (hc_ops c).
+  hs_model pinned (hc_M c) (negb (hc_busy c)) (hs_fresh pinned (hc_M c) (hc_init c)) [] 0%N (hc_init c) (hc_ops c).
 
 (** * group mq *)
 
